@@ -287,6 +287,7 @@ func init() {
 				[]string{"(*commit.Commit).ReadFrom", "(*commit.Buffer).ReadFrom", "commit.readChunksFrom", "(*commit.Log).Range", "(*column.Collection).readState", "(*column.Collection).Restore"}, c13Exceptions)
 			ruleWholeCommits(r)
 			ruleRestoreGuard(r)
+			ruleExactReads(r)
 		}})
 	register(&PropSpec{ID: "C14",
 		Explanation: "A failed snapshot reports the error and leaves the collection usable — structural part. (C14.pair) must-pass-through on Snapshot's flow graph: after the recorder was opened every exit uninstalls it, closes the temporary log and removes its file; losing the installation race cleans up; (C14.err) error-flow: no error on the state-writing path is discarded." + staticNote,
@@ -350,6 +351,7 @@ func init() {
 			ruleL8(r)
 			ruleL9(r)
 			ruleRegistryLists(r)
+			ruleReadChunk(r)
 		}})
 	register(&PropSpec{ID: "C19",
 		Explanation: "Triggers fire once per committed change with the final value — structural part. (C19.arms) the trigger's Apply loop calls back on every path for Put and Delete, never for Insert/Merge/Skip, one call per operation, with the positioned reader; (C03.twopass) computed pass after the main pass over the rewritten buffer; (C01.arms) every Merge arm swaps ⇒ the trigger sees a Put of the final value; (C03.rowdelete) row deletes reach the trigger's own registry entry once (markers go to cols[0] only); (C02.effects) no Apply outside commit ⇒ nothing on rollback; (C03.order) replay never reorders; (C03.register) CreateTrigger/DropTrigger." + staticNote,
